@@ -52,5 +52,6 @@ def run(rep, ctx):
     scope = {p for p in g.fns if p.startswith('leb128::') or p.startswith('read::reader::') or p.startswith('<u') and 'ReaderOffset' in p
              or p.startswith('endianity::') or p.startswith('write::writer::')}
     from ..liveness import run_liveness
-    run_liveness(rep, ctx.fx, ['N'])
+    if not getattr(ctx, 'variant', None):
+        run_liveness(rep, ctx.fx, ['N'])
     n = c01.run_N(rep, g, scope, scope_name='primitive codec (leb128, Reader defaults, ReaderOffset impls, Endianity, Writer defaults)', floor=8)
